@@ -27,6 +27,7 @@
 From Coq Require Import List NArith Bool.
 From V.common Require Import Wire.
 From V.C12 Require Import Model.
+From V.C12 Require Start StartGlue.
 Import ListNotations.
 Open Scope N_scope.
 
@@ -336,7 +337,10 @@ Fixpoint srun_trace (c : cfg) (s : st) (ts : list step) : list N :=
   | t :: r => let '(s1, v) := do_step c s t in enc_res v ++ sdump c s1 ++ srun_trace c s1 r
   end.
 
+Definition is_start (l : list N) : bool := match l with m :: _ => m =? StartGlue.MARK | [] => false end.
+
 Definition run_case (l : list N) : list N :=
+  if is_start l then StartGlue.run_start l else
   match decode_sched l with
   | Some (c, ts, hs) => 2 :: srun_trace c (init hs) ts
   | None =>
@@ -502,6 +506,7 @@ Definition count_open (ts : list step) : N :=
 Definition empty_u : uview := mkU None [] [] [] 0 0 0.
 
 Definition prop_ok (case trace : list N) : bool :=
+  if is_start case then StartGlue.prop_start case trace else
   match decode_sched case with
   | Some (c, ts, _) =>
       match trace with
